@@ -240,6 +240,23 @@ def requestsSpeakForLedTerm : List LStep → Option Nat → Nat → Option (Nat 
       else requestsSpeakForLedTerm rest led' (k + 1)
     | none => requestsSpeakForLedTerm rest led' (k + 1)
 
+/-- C12: replication reaches a member at the address the latest configuration gives it: a request
+    that appears in the network in a step (it was not travelling before) and whose follower is listed
+    in the leader's latest configuration is sent to the address listed there (`leader` holds the
+    address the request was sent to) -/
+def requestsToCurrentAddress : List LStep → Nat → Option (Nat × String)
+  | [], _ => none
+  | s :: rest, k =>
+    let fresh := s.post.pending.filter (fun p => !s.pre.pending.contains p)
+    -- (in the very step that changes the configuration a routine woken by the dispatch may still
+    -- read the old address before the main loop has updated it: that step is not judged)
+    if isLeading s.post ∧ ¬ s.post.view.dead ∧ s.pre.view.vol.latestIdx = s.post.view.vol.latestIdx ∧
+       fresh.any (fun p => match s.post.view.vol.latest.find? (·.id = p.1) with
+                           | some sv => sv.addr != p.2.leader
+                           | none => false) then
+      some (k, "replication-request-sent-to-an-address-the-member-no-longer-has")
+    else requestsToCurrentAddress rest (k + 1)
+
 /-! ## C09 -/
 
 /-- a VerifyLeader answered nil: between the call and the answer a quorum of the voters (the
